@@ -152,11 +152,11 @@ def grep_forbidden():
 
 ALLOWED_AXIOMS = {"propext", "Classical.choice", "Quot.sound"}
 
-def audit_axioms(theorems):
+def audit_axioms(theorems, module="MtblProps"):
     """#print axioms for each theorem name; returns {name: (ok, axioms or error)}"""
     if not theorems:
         return {}
-    src = "import MtblProps\n" + "".join("#print axioms %s\n" % t for t in theorems)
+    src = ("import %s\n" % module) + "".join("#print axioms %s\n" % t for t in theorems)
     path = os.path.join(BUILD, "audit_%d.lean" % os.getpid())
     os.makedirs(BUILD, exist_ok=True)
     open(path, "w").write(src)
